@@ -17,7 +17,7 @@ ID = "C08"
 LEVEL = "exploration"
 BUDGET = {
     "quick": {"runs": 4000, "wall": 300, "chunk": 20},
-    "thorough": {"runs": 30000, "wall": 3000, "chunk": 100},
+    "thorough": {"runs": 120000, "wall": 3400, "chunk": 100},
 }
 EXACT = ["Mean", "Sum", "Constant", "TrimmedMean", "Krum", "Random"]
 CONT = ["UPGrad", "DualProj", "PCGrad"]
